@@ -94,6 +94,27 @@ func c17Cases(thorough bool) []c17Case {
 		}
 	}
 	var out []c17Case
+	// a base relation much larger than the limit: what one premise instance fans out to must be bounded as well
+	var big []string
+	for i := 0; i < 60; i++ {
+		big = append(big, fmt.Sprintf("n0(%d)", i))
+	}
+	big = append(big, "l0([])")
+	for _, p := range []c17Shape{
+		{"copy-of-large-relation", "w(X) :- n0(X).\n", 1, false},
+		{"filtered-copy-of-large-relation", "w(X) :- n0(X), X < 1000.\n", 1, false},
+		{"two-step-copy", "v(X) :- n0(X).\nw(X) :- v(X).\n", 2, false},
+		{"hub-and-spokes", "hs(Y) :- n0(0), n0(Y).\n", 1, false},
+		{"hub-and-spokes-last-premise", "hs(X,Y) :- n0(X), X < 1, n0(Y).\n", 1, false},
+		{"divergence-from-large-seed", "up(Y) :- n0(X), Y = fn:plus(X, 1000).\nup(Y) :- up(X), Y = fn:plus(X, 1000).\n", 2, false},
+		{"let-copy-of-large-relation", "w(Y) :- n0(X) |> let Y = fn:plus(X, 1000).\n", 1, false},
+	} {
+		for _, l := range []int{1, 2, 3, 5, 8} {
+			for _, st := range c17Stores[:2] {
+				out = append(out, c17Case{p.diverges, c17Decls + p.rules, p.nrule, p.name, big, l, st, ""})
+			}
+		}
+	}
 	for _, p := range progs {
 		for _, seed := range c17Seeds {
 			for _, l := range c17Limits {
@@ -265,5 +286,5 @@ func c17(r *rt.Run) {
 			map[string]any{"program": c.name, "source": c.src, "seed": c.seed, "limit": c.limit, "store": c.store, "opt": c.opt})
 	})
 	r.Finish("pool D: 21 program shapes (counters, guarded counters, list growth, pair nesting, let-transform counters, wide joins, divergence below negation / feeding aggregation, wrapping doubling, mutual counters, fan-out) and pairs of shapes, " +
-		"x 3 seeds x every limit in {1..12,16,32,100} x store kinds (exact count, over-estimating merged store), single shapes also x {temporal store configured (empty / 3 facts), deterministic order}; non-trivial = program with an infinite model; distinct by construction")
+		"x 3 seeds (and 7 fan-out shapes over a 60-fact relation x limits {1,2,3,5,8}) x every limit in {1..12,16,32,100} x store kinds (exact count, over-estimating merged store), single shapes also x {temporal store configured (empty / 3 facts), deterministic order}; non-trivial = program with an infinite model; distinct by construction")
 }
